@@ -342,6 +342,80 @@ def dominance(run):
                    counterexample=rep, replay={"kind": "repeated-modes"}, reproduced=rep.get("reproduced", False), observed=rep)
 
 
+def per_branch_validation(run):
+    """in Simulator._apply_instruction_to_branches every path from the head of the loop over the branches to the call of the
+    simulation step passes the call instruction._validate(...) - unless Config.validate is off: outcome-dependent parameters
+    differ from branch to branch, so each branch needs its own check"""
+    oname = "C13/dominance/_apply_instruction_to_branches/parameters-validated-on-every-branch"
+    fn = _func(SIMPY, "Simulator._apply_instruction_to_branches")
+    g = cfgmod.CFG(fn)
+    loops = [n for n in ast.walk(fn) if isinstance(n, ast.For) and ast.unparse(n.iter) == "branches"]
+    steps = [n for n in g.nodes if n.stmt is not None and n.kind in ("stmt", "return") and "simulation_step(" in ast.unparse(n.stmt)]
+    if len(loops) != 1 or not steps:
+        run.undecided_ob(oname, "frames", "cfg-dominance", "the loop over branches / the call of the simulation step was not found")
+        return
+    loop = loops[0]
+    heads = [n for n in g.nodes if n.kind == "iter" and n.stmt is loop.iter]
+    if not heads:
+        run.undecided_ob(oname, "frames", "cfg-dominance", "loop head not found in the CFG")
+        return
+
+    def validates(n):
+        if n.stmt is not None and n.kind == "stmt" and "instruction._validate(" in ast.unparse(n.stmt):
+            return True
+        # the only accepted way around the call: the test `self.config.validate` (whose true-branch starts with the call)
+        if n.kind == "test" and n.label == "if self.config.validate" and n.succ:
+            first = n.succ[0]
+            return first.stmt is not None and first.kind == "stmt" and "instruction._validate(" in ast.unparse(first.stmt)
+        return False
+
+    seen, stack, escaped = set(), [h.succ[0] for h in heads if h.succ], None
+    while stack:
+        n = stack.pop()
+        if n is None or n.id in seen:
+            continue
+        seen.add(n.id)
+        if validates(n):
+            continue
+        if n in steps:
+            escaped = n
+            break
+        if n in heads:
+            continue
+        stack.extend(n.succ)
+    if escaped is None:
+        run.discharged(oname, "frames", "cfg-dominance", 0.0, function=f"{SIMPY}:Simulator._apply_instruction_to_branches")
+    else:
+        rep = replay_per_branch_validation()
+        run.failed(oname, "frames", "cfg-dominance",
+                   what="a path from the head of the loop over branches reaches the simulation step without instruction._validate(...) "
+                        "(and without the test `self.config.validate`): a branch can run with unchecked outcome-dependent parameters",
+                   counterexample={"line": getattr(escaped.stmt, "lineno", None)}, replay={"kind": "per-branch-validation"},
+                   reproduced=rep.get("reproduced", False), observed=rep)
+
+
+def replay_per_branch_validation():
+    """UniformLoss(transmissivity = f(outcome)) after a mid-circuit measurement, f out of [0, 1] on exactly one outcome:
+    the program must be refused whatever the order of the branches"""
+    import numpy as np
+    import piquasso as pq
+
+    bad = []
+    for expr in ("1.0 - 0.75 * x[0]", "0.75 * x[0] - 0.5"):
+        for shots in (None, 200):
+            sim = pq.PassiveSimulator(d=3, config=pq.Config(seed_sequence=7))
+            prog = [pq.NumberState([1, 1, 0]), pq.Beamsplitter(theta=np.pi / 5).on_modes(0, 1),
+                    pq.ParticleNumberMeasurement().on_modes(0), pq.UniformLoss(transmissivity=expr)]
+            try:
+                sim.execute_instructions(prog, shots=shots)
+                bad.append({"transmissivity": expr, "shots": shots, "observed": "a Result was returned"})
+            except pq.api.exceptions.PiquassoException:
+                pass
+            except Exception as e:     # noqa: BLE001
+                bad.append({"transmissivity": expr, "shots": shots, "observed": f"{type(e).__name__}: {e}"[:160]})
+    return {"accepted": bad, "reproduced": bool(bad)}
+
+
 def replay_repeated_modes():
     import piquasso as pq
     from piquasso.api.exceptions import PiquassoException
@@ -530,9 +604,14 @@ def bounded_acceptance(run):
     return ev, fails
 
 
+def _check_per_branch(run):
+    per_branch_validation(run)
+
+
 def check(run):
     guards(run)
     dominance(run)
+    per_branch_validation(run)
     lazy_validation(run)
     n_sites = exception_types(run)
     run.notes.append(f"{n_sites} raise sites scanned")
@@ -567,6 +646,17 @@ def check(run):
 
 
 def replay(path):
+    import json as _json
+    with open(path) as _f:
+        _r = (_json.load(_f).get("replay") or {})
+    if _r.get("kind") == "per-branch-validation":
+        out = replay_per_branch_validation()
+        print(out)
+        return 1 if out["reproduced"] else 0
+    return _replay_rest(path)
+
+
+def _replay_rest(path):
     with open(path) as f:
         rep = json.load(f)
     kind = (rep.get("replay") or {}).get("kind")
